@@ -176,6 +176,31 @@ func (c *Ctx) RunC06(tier string) {
 	}
 	rep.Bound += "; under ICWS'88 every opcode (17) x modifier {none,.i,.f} x A-mode (absent or 8) x B operand (absent, mode absent or 8), alone and inside a 3-line program"
 
+	// 4c. ICWS'88: every ordered pair of lines with the same opcode (whatever the
+	// assembler remembers from one line must not excuse the next)
+	for _, op := range ref.OpList {
+		if !c.mine() || c.expired() {
+			continue
+		}
+		var lines []string
+		for _, am := range append([]string{""}, ref.ModeList...) {
+			for _, bm := range append([]string{"", "-"}, ref.ModeList...) {
+				line := op + " " + am + "2"
+				if bm != "-" {
+					line += ", " + bm + "3"
+				}
+				lines = append(lines, line)
+			}
+		}
+		for _, l1 := range lines {
+			for _, l2 := range lines {
+				c.check06(l1+"\n"+l2+"\n", cfg88)
+				c.Rep.Count("c06:two-line-88-programs")
+			}
+		}
+	}
+	rep.Bound += "; under ICWS'88 every ordered pair of lines with the same opcode over A-mode (absent or 8) x B operand (absent, mode absent or 8)"
+
 	// 4b. EQU bodies that carry an addressing-mode character: whatever the assembler makes of
 	// them, an accepted result must be legal in the dialect
 	for _, dialect := range []g.SimulatorMode{g.ICWS88, g.ICWS94} {
